@@ -24,6 +24,8 @@ def run(ctx):
     R4 = ctx.rule('C06.R4', 'session_memory_storage state only under mutex_ (writes exclusive)')
     R5 = ctx.rule('C06.R5', 'session (de)serialiser: header and payload reads stay inside the string; limits agree with the bit-field widths')
     R10 = ctx.rule('C06.R10', 'session (de)serialiser agree: every entry is written as header(key length, exposed flag, value length) + key + value, for all entries in order; the reader takes the key from the 4 bytes after the header start for key_size bytes, the value right behind it for data_size bytes, advances by exactly header + key + value, and stores value and flag under that key')
+    R11 = ctx.rule('C06.R11', 'cookie-only storage: what is saved is deadline (sizeof(time_t) bytes) + data, encrypted, base64url-encoded behind the letter C and handed to set_session_cookie; load undoes exactly that - text after the C decoded, decrypted, the first sizeof(time_t) bytes are the deadline, the rest is handed out as the data')
+    R12 = ctx.rule('C06.R12', 'session_interface: a changed or new non-empty session is always written (serialised data_, deadline from session_age(), cookie from cookie_age()); saving is skipped only for an unchanged session, an emptied session clears the stored one; load installs what the storage returned; a fixed-deadline session that already existed keeps its original deadline')
     R6 = ctx.rule('C06.R6', 'session_dual dispatches on the cookie type and clears the server record when switching to client storage')
     R7 = ctx.rule('C06.R7', 'in-memory storage: the expiry index entry of a record is keyed by the deadline stored in the record')
 
@@ -421,6 +423,145 @@ def run(ctx):
                 oks = okfl and len(sv) == 1 and q.always_after(ldd, idx[0], [fw[0]]) and q.always_after(ldd, idx[0], sv)
             ctx.check(oks, R10, 'load_data:stored-under-the-key-with-flag-and-value', 'the entry read is not stored as data[key] = {value, exposed flag of the header}', ldd.loc(idx[0]) if idx else ldd.where)
     ctx.floor(R10, 8)
+
+    # ---------------- R11 cookie storage writer / reader
+    PC = model.Program(build.extract([REPO + '/src/session_cookies.cpp'], include_re='^/repo/(src|private|cppcms)/'))
+    ctx.units.append('src/session_cookies.cpp')
+    SC = 'cppcms::sessions::session_cookies'
+    sv = PC.fn(SC + '::save')
+    datap, tmop = q.param_by_index(sv, 1), q.param_by_index(sv, 2)
+    enc = [i for i in sv.calls() if q.short_of(sv.bcallee(i) or '') == 'encrypt' and sv.N(i)['k'] == 'CXXMemberCallExpr']
+    ok = len(enc) == 1
+    if ok:
+        rd = sv.ref_of(sv.args(enc[0])[0])
+        aps = [i for i in sv.calls() if (q.short_of(sv.bcallee(i) or '') == 'append' or (sv.N(i)['k'] == 'CXXOperatorCallExpr' and sv.N(i).get('op') == '+=')) and
+               ((sv.obj(i) is not None and sv.ref_of(sv.obj(i)) == rd) or (sv.N(i)['k'] == 'CXXOperatorCallExpr' and sv.ref_of(sv.N(i)['ch'][1]) == rd))]
+        ok = rd is not None and len(aps) == 2 and q.before(sv, aps[0], aps[1]) and q.before(sv, aps[1], enc[0])
+        if ok:
+            a0 = sv.args(aps[0]) if sv.N(aps[0])['k'] == 'CXXMemberCallExpr' else [sv.N(aps[0])['ch'][2]]
+            a1 = sv.args(aps[1]) if sv.N(aps[1])['k'] == 'CXXMemberCallExpr' else [sv.N(aps[1])['ch'][2]]
+            ok = tmop in sv.subtree_refs(a0[0]) and len(a0) >= 2 and sv.const_value(a0[1]) == 8 and sv.ref_of(a1[0]) == datap
+            others = [w for w in sv.calls() if w not in aps and q.short_of(sv.bcallee(w) or '') in ('clear', 'assign', 'erase', 'resize', 'operator=') and sv.obj(w) is not None and sv.ref_of(sv.obj(w)) == rd]
+            ok = ok and not others
+        ciph = [d['ref'] for i in sv.all_nodes() if sv.N(i)['k'] == 'DeclStmt' for d in sv.N(i)['decls'] if d.get('init') is not None and enc[0] in set(sv.walk(d['init']))]
+        b64 = [i for i in sv.calls() if sv.bcallee(i) == 'cppcms::b64url::encode']
+        ssc = [i for i in sv.calls() if q.short_of(sv.bcallee(i) or '') == 'set_session_cookie']
+        ok = ok and len(ciph) == 1 and len(b64) == 1 and sv.ref_of(sv.args(b64[0])[0]) == ciph[0] and len(ssc) == 1
+        if ok:
+            cd = sv.ref_of(sv.args(ssc[0])[0])
+            cdef = [v_ for (d_, v_) in sv.defs_of_var(cd or '') if v_ is not None]
+            ok = len(cdef) == 1 and b64[0] in set(sv.walk(cdef[0])) and any(sv.N(j)['k'] == 'StringLiteral' and sv.N(j).get('s') == 'C' for j in sv.walk(cdef[0]))
+            if ok:
+                pl = [j for j in sv.walk(cdef[0]) if sv.N(j)['k'] == 'CXXOperatorCallExpr' and sv.N(j).get('op') == '+']
+                ok = len(pl) == 1 and any(sv.N(j)['k'] == 'StringLiteral' for j in sv.walk(sv.N(pl[0])['ch'][1])) and b64[0] in set(sv.walk(sv.N(pl[0])['ch'][2]))
+            reach = sv.reachable_blocks(cut_blocks=q.blocks_of(sv, ssc) | sv.abnormal_blocks())
+            ok = ok and sv.exit not in reach
+    ctx.check(ok, R11, 'session_cookies::save:cookie=C+b64(encrypt(deadline+data))', 'the cookie is not built as C + base64url(encrypt(deadline bytes + data)) and set on every normal path', sv.where)
+    ld = PC.fn(SC + '::load')
+    dout, tout = q.param_by_index(ld, 1), q.param_by_index(ld, 2)
+    dec = [i for i in ld.calls() if q.short_of(ld.bcallee(i) or '') == 'decrypt' and ld.N(i)['k'] == 'CXXMemberCallExpr']
+    b64d = [i for i in ld.calls() if ld.bcallee(i) == 'cppcms::b64url::decode']
+    gsc = [i for i in ld.calls() if q.short_of(ld.bcallee(i) or '') == 'get_session_cookie']
+    ok = len(dec) == 1 and len(b64d) == 1 and len(gsc) == 1
+    if ok:
+        cdv = [d['ref'] for i in ld.all_nodes() if ld.N(i)['k'] == 'DeclStmt' for d in ld.N(i)['decls'] if d.get('init') is not None and gsc[0] in set(ld.walk(d['init']))]
+        cipher = ld.ref_of(ld.args(b64d[0])[1])
+        sub = [j for j in ld.calls(ld.args(b64d[0])[0]) if q.short_of(ld.bcallee(j) or '') == 'substr']
+        ok = len(cdv) == 1 and len(sub) == 1 and ld.ref_of(ld.obj(sub[0])) == cdv[0] and ld.const_value(ld.args(sub[0])[0]) == 1 and ld.ref_of(ld.args(dec[0])[0]) == cipher and cipher is not None and q.before(ld, b64d[0], dec[0])
+        tmpv = ld.ref_of(ld.args(dec[0])[1])
+        g_c = ld.gate_edges(lambda atom, pol: ld.N(atom)['k'] == 'BinaryOperator' and ld.N(atom).get('op') in ('==', '!=') and ld.const_value(ld.N(atom)['ch'][1]) == 67 and
+                            (lambda x: ld.N(x)['k'] == 'CXXOperatorCallExpr' and ld.N(x).get('op') == '[]' and ld.ref_of(ld.N(x)['ch'][1]) == cdv[0] and ld.const_value(ld.N(x)['ch'][2]) == 0)(ld.strip(ld.N(atom)['ch'][0])) and ((ld.N(atom)['op'] == '==') == pol)) if cdv else []
+        ok = ok and bool(g_c) and ld.only_through(b64d[0], g_c)
+        succ = q.nonfalse_returns(ld)
+        dw = [w for w in q.writes_to(ld, dout) if ld.N(w)['k'] == 'CXXOperatorCallExpr' and ld.N(w).get('op') == '=']
+        tw = [w for w in q.writes_to(ld, tout)]
+        mc = [i for i in ld.calls() if ld.callee(i) == 'memcpy']
+        ok = ok and len(dw) == 1 and len(tw) == 1 and len(mc) == 1 and tmpv is not None
+        if ok:
+            rhs = ld.N(dw[0])['ch'][2]
+            sb = [j for j in ld.calls(rhs) if q.short_of(ld.bcallee(j) or '') == 'substr']
+            ok = len(sb) == 1 and ld.ref_of(ld.obj(sb[0])) == tmpv and ld.const_value(ld.args(sb[0])[0]) == 8 and len([a for a in ld.args(sb[0]) if ld.N(a)['k'] != 'CXXDefaultArgExpr']) == 1
+            a = ld.args(mc[0])
+            tv_ = [r for r in ld.subtree_refs(a[0]) if r.startswith('v:')]
+            ok = ok and len(tv_) == 1 and ld.ref_of(ld.N(tw[0])['ch'][-1]) == tv_[0] and ld.const_value(a[2]) == 8 and any(q.short_of(ld.bcallee(j) or '') in ('data', 'c_str') and ld.ref_of(ld.obj(j)) == tmpv for j in ld.calls(a[1])) and \
+                not any(ld.N(j)['k'] in ('BinaryOperator', 'CXXOperatorCallExpr') and ld.N(j).get('op') in ('+', '-') for j in ld.walk(a[1]))
+            reach = ld.reachable_blocks(cut_blocks=q.blocks_of(ld, dw))
+            reach2 = ld.reachable_blocks(cut_blocks=q.blocks_of(ld, tw))
+            ok = ok and bool(succ) and all(ld.point_of(r)[0] not in reach and ld.point_of(r)[0] not in reach2 for r in succ) and q.before(ld, dec[0], dw[0]) and q.before(ld, mc[0], tw[0])
+    ctx.check(ok, R11, 'session_cookies::load:undoes-save', 'load does not decode the text after the C, decrypt it, take the deadline from the first sizeof(time_t) bytes and hand out the rest as the data', ld.where)
+    ctx.floor(R11, 2)
+
+    # ---------------- R12 session_interface save / load decisions
+    SI = 'cppcms::session_interface'
+    sv2 = P.fn(SI + '::save')
+    stsave = [i for i in sv2.calls() if q.short_of(sv2.bcallee(i) or '') == 'save' and sv2.N(i)['k'] == 'CXXMemberCallExpr' and any(model.strip_targs(r).endswith('session_interface::storage_') for r in sv2.subtree_refs(sv2.obj(i)))]
+    sd = [i for i in sv2.calls() if sv2.bcallee(i) == SI + '::save_data']
+    ssc2 = [i for i in sv2.calls() if sv2.bcallee(i) == SI + '::set_session_cookie']
+    ok = len(stsave) == 1 and len(sd) == 1 and len(ssc2) == 1
+    if ok:
+        a = sv2.args(stsave[0])
+        arv = sv2.ref_of(a[1])
+        ok = arv is not None and sv2.ref_of(sv2.args(sd[0])[1]) == arv and model.strip_targs(sv2.ref_of(sv2.args(sd[0])[0]) or '').endswith('session_interface::data_') and q.before(sv2, sd[0], stsave[0]) and \
+            any(sv2.bcallee(j) == SI + '::session_age' for j in sv2.calls(a[2])) and model.strip_targs(sv2.ref_of(a[3]) or '').endswith('session_interface::new_session_') and \
+            model.strip_targs(sv2.ref_of(a[4]) or '').endswith('session_interface::on_server_')
+        ok = ok and any(sv2.bcallee(j) == SI + '::cookie_age' for j in sv2.calls(sv2.args(ssc2[0])[0])) and q.always_after(sv2, stsave[0], ssc2)
+        # nothing modifies the serialised text between serialising and storing
+        ok = ok and not [w for w in sv2.calls() if w not in (sd[0], stsave[0]) and arv in sv2.subtree_refs(w) and q.between(sv2, sd[0], w, stsave[0])]
+    ctx.check(ok, R12, 'save:stores-serialised-data-with-session_age-and-sets-cookie-with-cookie_age', 'what is stored is not the serialisation of data_ with the deadline of session_age(), or the cookie is not set afterwards', sv2.where)
+    if len(stsave) == 1:
+        def fld_is(name_, want):
+            return sv2.gate_edges(lambda atom, pol: model.strip_targs(sv2.ref_of(atom) or '').endswith('session_interface::' + name_) and pol is want)
+        g_unch = sv2.gate_edges(lambda atom, pol: sv2.N(atom)['k'] == 'CXXOperatorCallExpr' and sv2.N(atom).get('op') in ('==', '!=') and
+                                sorted(model.strip_targs(r).rsplit('::', 1)[-1] for r in sv2.subtree_refs(atom) if r.startswith('f:')) == ['data_', 'data_copy_'] and ((sv2.N(atom)['op'] == '==') == pol))
+        g_empty = q.empty_gate(sv2, lambda c_: sv2.obj(c_) is not None and model.strip_targs(sv2.ref_of(sv2.obj(c_)) or '').endswith('session_interface::data_'), True)
+        def entry_guard(atom, pol):
+            r_ = model.strip_targs(sv2.ref_of(atom) or '')
+            if r_.endswith('session_interface::loaded_'):
+                return pol is False
+            if r_.endswith('session_interface::saved_'):
+                return pol is True
+            n_ = sv2.N(atom)
+            return n_['k'] == 'BinaryOperator' and n_.get('op') in ('==', '!=') and any(model.strip_targs(r).endswith('session_interface::storage_') for r in sv2.subtree_refs(atom)) and ((n_['op'] == '==') == pol)
+        g_entry = sv2.gate_edges(entry_guard)
+        reach = sv2.reachable_blocks(cut_blocks=[sv2.point_of(stsave[0])[0]] + list(sv2.abnormal_blocks()), cut_edges=list(g_unch) + list(g_empty) + list(g_entry))
+        ctx.check(bool(g_unch) and bool(g_empty) and sv2.exit not in reach, R12, 'save:skipped-only-when-unchanged-or-empty', 'save() can return without storing a session whose data changed', sv2.where)
+        # unchanged AND not new: a new session is never skipped
+        g_new_f = fld_is('new_session_', False)
+        rets_skip = [r for r in sv2.returns() if sv2.only_through(r, g_unch)]
+        ctx.check(bool(rets_skip) and all(sv2.only_through(r, g_new_f) for r in rets_skip), R12, 'save:a-new-session-is-never-skipped', 'a session that is new can be left unsaved because its data equals the copy', sv2.where)
+        clr = [i for i in sv2.calls() if q.short_of(sv2.bcallee(i) or '') == 'clear' and sv2.N(i)['k'] == 'CXXMemberCallExpr' and any(model.strip_targs(r).endswith('session_interface::storage_') for r in sv2.subtree_refs(sv2.obj(i)))]
+        ctx.check(len(clr) == 1 and sv2.only_through(clr[0], g_empty), R12, 'save:emptied-session-clears-the-stored-one', 'an emptied session does not clear what is stored (or a non-empty one is cleared)', sv2.where)
+    ld2 = P.fn(SI + '::load')
+    stl = [i for i in ld2.calls() if q.short_of(ld2.bcallee(i) or '') == 'load' and ld2.N(i)['k'] == 'CXXMemberCallExpr' and any(model.strip_targs(r).endswith('session_interface::storage_') for r in ld2.subtree_refs(ld2.obj(i)))]
+    ldd_c = [i for i in ld2.calls() if ld2.bcallee(i) == SI + '::load_data']
+    ok = len(stl) == 1 and len(ldd_c) == 1
+    if ok:
+        arv = ld2.ref_of(ld2.args(stl[0])[1])
+        g_ok = q.call_gate(ld2, lambda i: i == stl[0], True)
+        cpw = [i for i in ld2.calls() if ld2.N(i)['k'] == 'CXXOperatorCallExpr' and ld2.N(i).get('op') == '=' and model.strip_targs(ld2.ref_of(ld2.N(i)['ch'][1]) or '').endswith('session_interface::data_copy_') and
+               model.strip_targs(ld2.ref_of(ld2.N(i)['ch'][2]) or '').endswith('session_interface::data_')]
+        ok = arv is not None and ld2.ref_of(ld2.args(ldd_c[0])[1]) == arv and model.strip_targs(ld2.ref_of(ld2.args(ldd_c[0])[0]) or '').endswith('session_interface::data_') and ld2.only_through(ldd_c[0], g_ok) and \
+            model.strip_targs(ld2.ref_of(ld2.args(stl[0])[2]) or '').endswith('session_interface::timeout_in_') and len(cpw) == 1 and q.before(ld2, ldd_c[0], cpw[0])
+        succ = q.nonfalse_returns(ld2)
+        ok = ok and bool(succ) and all(q.before(ld2, cpw[0], r) for r in succ)
+        clrs = [i for i in ld2.calls() if q.short_of(ld2.bcallee(i) or '') == 'clear' and ld2.obj(i) is not None and model.strip_targs(ld2.ref_of(ld2.obj(i)) or '').endswith('session_interface::data_')]
+        ok = ok and len(clrs) == 1 and q.before(ld2, clrs[0], stl[0])
+    ctx.check(ok, R12, 'load:installs-what-the-storage-returned', 'load() does not start empty, deserialise the stored text into data_ and remember it in data_copy_', ld2.where)
+    for fn_name, old_field in (('session_age', 'timeout_in_'), ('cookie_age', 'timeout_in_')):
+        f = P.fn(SI + '::' + fn_name)
+        olds = [r for r in f.returns() if any(model.strip_targs(x).endswith('session_interface::' + old_field) for x in f.subtree_refs(f.ret_value(r)))]
+        news = [r for r in f.returns() if any(model.strip_targs(x).endswith('session_interface::timeout_val_') for x in f.subtree_refs(f.ret_value(r)))]
+
+        def how_is(name_, want):
+            return f.gate_edges(lambda atom, pol: f.N(atom)['k'] == 'BinaryOperator' and f.N(atom).get('op') in ('==', '!=') and model.strip_targs(f.ref_of(f.N(atom)['ch'][0]) or '').endswith('session_interface::how_') and
+                                any(r.endswith('::' + name_) for r in f.subtree_refs(f.N(atom)['ch'][1])) and ((f.N(atom)['op'] == '==') == pol) == want)
+        g_fresh = f.gate_edges(lambda atom, pol: (f.N(atom)['k'] == 'BinaryOperator' and f.N(atom).get('op') == '==' and pol is True and model.strip_targs(f.ref_of(f.N(atom)['ch'][0]) or '').endswith('session_interface::how_') and
+                                                any(r.endswith(('::renew', '::browser')) for r in f.subtree_refs(f.N(atom)['ch'][1]))) or
+                               (model.strip_targs(f.ref_of(atom) or '').endswith('session_interface::new_session_') and pol is True))
+        ok = len(olds) == 1 and len(news) >= 1 and bool(how_is('renew', False)) and f.only_through(olds[0], how_is('renew', False)) and (fn_name == 'cookie_age' or f.only_through(olds[0], how_is('browser', False))) and \
+            bool(g_fresh) and all(f.only_through(r, g_fresh) for r in news)
+        ctx.check(ok, R12, '%s:existing-fixed-session-keeps-its-deadline:renewing-ones-get-now+timeout' % fn_name, 'the deadline handed to the storage / the cookie does not follow the expiration policy (a fixed session would be prolonged, or a renewing one not)', f.where)
+    ctx.floor(R12, 6)
 
     # ---------------- R6
     D = 'cppcms::sessions::session_dual'
